@@ -99,6 +99,10 @@ pub fn cfg_for(scn: Scenario, t: &mut Tape, extra: u64) -> RunCfg {
                         // PINGREQs
                         c.keepalive_s = 1 + t.choose(2) as u16;
                         c.p_slow_write = 150;
+                        // ... and in two thirds of them the application's polls have a timeout
+                        // shorter than a slow write: the poll is dropped while a packet is half
+                        // accepted (never in the whole-write run, whose writes take no time)
+                        c.twin_poll_budget_us = [0, 120, 250][t.choose(3) as usize] * clock::US_PER_MS;
                     }
                     2 => {
                         // keep-alive variant with identical timing in both runs: time passes only
@@ -280,7 +284,9 @@ fn gen_script(w: &mut World, with_disconnect: bool) -> Vec<SStep> {
     let is_request = |s: &SStep| matches!(s, SStep::Pub(_) | SStep::Sub(_) | SStep::Unsub(_));
     let mut k = 0;
     while k + 1 < v.len() {
-        if is_request(&v[k]) && is_request(&v[k + 1]) && w.tape.chance(1, 3) {
+        // (before a Reconnect too: the application drops the connection straight after the
+        // request - comparable only if the request's packet is completely on the wire by then)
+        if is_request(&v[k]) && (is_request(&v[k + 1]) || matches!(v[k + 1], SStep::Reconnect)) && w.tape.chance(1, 3) {
             v.insert(k + 1, SStep::NoDrain);
             k += 1;
         }
@@ -319,7 +325,8 @@ pub struct TwinObs {
 }
 
 fn drain_to_idle(conn: &mut Conn<'_, '_>) -> bool {
-    let opts = ExecOpts { cancellable: true, idle_cancel: true, budget_us: None, timer_is_idle: true };
+    let budget = with(|w| w.cfg.twin_poll_budget_us);
+    let opts = ExecOpts { cancellable: true, idle_cancel: true, budget_us: (budget > 0).then_some(budget), timer_is_idle: true };
     for _ in 0..400 {
         let r = do_wait(conn, Wait::Poll, Some(opts));
         match r {
@@ -448,6 +455,26 @@ fn exec_script(session: &mut minimq::Session<'_>, script: &[SStep]) {
             }
             if matches!(script.get(i), Some(SStep::NoDrain)) {
                 i += 1;
+                if matches!(script.get(i), Some(SStep::Reconnect)) {
+                    // dropping the connection without another poll: the two executions can only
+                    // be compared if every request of this connection is completely on the wire
+                    // (in the uncancelled execution it always is)
+                    let complete = with(|w| {
+                        let cur = w.cur;
+                        let c = &w.conns[cur];
+                        c.parsed == c.wire.len()
+                            && w.reqs.iter().all(|r| r.conn_issued != cur || r.qos == 0 || r.accept == Accept::NotAccepted || r.tx_by_conn.get(&cur).copied().unwrap_or(0) > 0)
+                    });
+                    if !complete {
+                        with(|w| {
+                            w.twin_incomparable = true;
+                            w.probe("twin_not_comparable_after_undrained_reconnect");
+                        });
+                        break;
+                    }
+                    with(|w| w.probe("twin_reconnect_without_drain"));
+                    continue;
+                }
                 with(|w| w.probe("twin_step_without_drain"));
                 continue;
             }
@@ -478,6 +505,7 @@ fn packet_key(w: &World, p: &Packet) -> String {
     match p {
         Packet::Connect { .. } => "CONNECT".into(),
         Packet::Publish { qos: 0, topic, .. } => format!("PUB0 t{}", world::tag_of_str(topic).unwrap_or(0)),
+        Packet::Publish { topic, dup: true, .. } => format!("PUB dup t{}", world::tag_of_str(topic).unwrap_or(0)),
         Packet::Publish { topic, .. } => format!("PUB t{}", world::tag_of_str(topic).unwrap_or(0)),
         Packet::Subscribe { filters, .. } => format!("SUB t{}", filters.first().and_then(|f| world::tag_of_str(&f.filter)).unwrap_or(0)),
         Packet::Unsubscribe { filters, .. } => format!("UNSUB t{}", filters.first().and_then(|f| world::tag_of_str(f)).unwrap_or(0)),
@@ -604,6 +632,9 @@ fn cancel_twin() {
         }
         if twin.cancelled_after_bytes > 0 {
             w.probe("twin_cancelled_after_partial_write");
+        }
+        if w.twin_incomparable && !w.cut {
+            return;
         }
         if w.cut {
             // the cancelled run damaged its outbound stream (the base run did not): that is a
